@@ -176,6 +176,8 @@ def gen_routing_run(rng: Rng, mb, rid, sweep=False):
                     ops.append(['O', rng.choice(mine)['idx'], 0])
                 if rng.chance(15):
                     ops.append(['W', rng.between(1, 4)])
+            if k == 0 and mci and rng.chance(50):
+                ops.append(['O', mci['release'], 0])   # the holder releases at the very end (closes its window)
             if ops:
                 tasks.append({'name': f'c{k}', 'ops': ops})
         n_peers = rng.between(0, 2) if peer_events else 0
